@@ -565,6 +565,56 @@ func rowsTableAsCalls(info *types.Info, list []ast.Stmt) []ast.Stmt {
 	return out
 }
 
+// clientDoHelper: call is `c.<m>(req)` of a method of the client whose body is nothing but
+//
+//	resp, err := c.HTTPClient.Do(req) ; if err != nil { return nil, <non-nil error> } ; return resp, nil
+//
+// (or `return c.HTTPClient.Do(req)`): the same response / a non-nil error exactly when Do fails.
+func clientDoHelper(p *Program, rc *rmCtx, call *ast.CallExpr) bool {
+	info := p.Pkg.TypesInfo
+	sel, ok := call.Fun.(*ast.SelectorExpr)
+	if !ok || identObj(info, sel.X) != rc.recv {
+		return false
+	}
+	fo, _ := info.Uses[sel.Sel].(*types.Func)
+	fd := declOfObj(p, fo)
+	if fd == nil || fd.Recv == nil || fo.Exported() {
+		return false
+	}
+	recv := recvObj(info, fd)
+	ps := paramObjs(info, fd)
+	if recv == nil || len(ps) != 1 {
+		return false
+	}
+	isDo := func(e ast.Expr) bool {
+		c2, ok := ast.Unparen(e).(*ast.CallExpr)
+		return ok && len(c2.Args) == 1 && identObj(info, c2.Args[0]) == ps[0] && types.ExprString(c2.Fun) == recv.Name()+".HTTPClient.Do"
+	}
+	list := mergeCommaOk(info, fd.Body.List)
+	if len(list) == 1 {
+		ret, ok := list[0].(*ast.ReturnStmt)
+		return ok && len(ret.Results) == 1 && isDo(ret.Results[0])
+	}
+	if len(list) != 3 {
+		return false
+	}
+	as, ok := list[0].(*ast.AssignStmt)
+	if !ok || len(as.Lhs) != 2 || len(as.Rhs) != 1 || !isDo(as.Rhs[0]) {
+		return false
+	}
+	respO, errO := identObj(info, as.Lhs[0]), identObj(info, as.Lhs[1])
+	ifs, ok := list[1].(*ast.IfStmt)
+	if !ok || ifs.Else != nil || !condTestsErrG(info, ifs.Cond, errO) || len(ifs.Body.List) != 1 {
+		return false
+	}
+	r1, ok := ifs.Body.List[0].(*ast.ReturnStmt)
+	if !ok || len(r1.Results) != 2 || !isNilIdent(r1.Results[0]) || isNilIdent(r1.Results[1]) {
+		return false
+	}
+	r2, ok := list[2].(*ast.ReturnStmt)
+	return ok && len(r2.Results) == 2 && identObj(info, r2.Results[0]) == respO && respO != nil && isNilIdent(r2.Results[1])
+}
+
 func buildClientMethod(p *Program, fd *ast.FuncDecl, sig *types.Signature) *ClientMethod {
 	info := p.Pkg.TypesInfo
 	m := &ClientMethod{Name: fd.Name.Name, Decl: fd, ReqType: sig.Params().At(1).Type(), RespIface: sig.Results().At(0).Type(), Body: "none"}
@@ -1008,7 +1058,7 @@ func buildClientMethod(p *Program, fd *ast.FuncDecl, sig *types.Signature) *Clie
 	var respObj types.Object
 	if i < len(list) {
 		if as, ok := list[i].(*ast.AssignStmt); ok && len(as.Lhs) == 2 && len(as.Rhs) == 1 {
-			if call, ok := as.Rhs[0].(*ast.CallExpr); ok && len(call.Args) == 1 && identObj(info, call.Args[0]) == reqObj && types.ExprString(call.Fun) == rc.recv.Name()+".HTTPClient.Do" {
+			if call, ok := as.Rhs[0].(*ast.CallExpr); ok && len(call.Args) == 1 && identObj(info, call.Args[0]) == reqObj && (types.ExprString(call.Fun) == rc.recv.Name()+".HTTPClient.Do" || clientDoHelper(p, rc, call)) {
 				respObj = identObj(info, as.Lhs[0])
 				i++
 				if ifs, ok := list[i].(*ast.IfStmt); ok && condTestsErrG(info, ifs.Cond, identObj(info, as.Lhs[1])) {
